@@ -49,7 +49,7 @@ Init == l = 1 /\ root = MkSec(Null, <<>>) /\ pcfg = PlainCfg /\ dead = FALSE /\ 
 TInit ==
   /\ IsEvent("Init")
   /\ root' = MkSec(Null, InitOpts(DeclsOf(Ev.schema)))
-  /\ pcfg' = ParseCfg(Ev.pcfg.nocase, Ev.pcfg.comments, Ev.pcfg.ignore, 0, 0, 0)
+  /\ pcfg' = ParseCfg(Ev.pcfg.nocase, Ev.pcfg.comments, Ev.pcfg.ignore, Ev.pcfg.failParse, Ev.pcfg.failValid, Ev.pcfg.failFunc)
   /\ dead' = FALSE
   /\ cbn' = [cn |-> 0, vn |-> 0, fn |-> 0]
   (* the driver's dump right after cfg_init must be the declared defaults *)
@@ -60,6 +60,16 @@ TReset == IsEvent("Reset") /\ UNCHANGED <<root, pcfg, cbn>> /\ dead' = FALSE
 (* after an outcome the properties leave open, the rest of that execution is not judged *)
 TSkip == dead /\ l <= Len(TraceLog) /\ Ev.e \notin {"Reset", "Init"} /\ l' = l + 1 /\ UNCHANGED <<root, pcfg, dead, cbn>>
 
+(* the callback log of a parse: kind and option of every invocation, the decoded text a value-parsing
+   callback saw, the argument vector of a function, the number of values visible to a validation *)
+CbMatch(s, o) ==
+  /\ Len(s) = Len(o)
+  /\ \A i \in 1..Len(s) :
+        /\ s[i].k = o[i].k /\ s[i].o = o[i].o
+        /\ (s[i].k = "parse" => s[i].v = o[i].v)
+        /\ (s[i].k = "func"  => s[i].vals = o[i].argv)
+        /\ (s[i].k = "valid" => Len(s[i].vals) = o[i].nvals)
+
 TParse ==
   /\ ~dead /\ IsEvent("Parse")
   /\ LET p == PRun(PInit(root, pcfg, "buf", FALSE, cbn.cn, cbn.vn, cbn.fn), Ev.toks)
@@ -69,6 +79,7 @@ TParse ==
         (* what a rejected parse leaves behind is not fixed by the properties: the rest of that
            execution is not judged (the driver still checks that it neither crashes nor leaks) *)
         /\ dead' = (p.status # "ok")
+        /\ (p.status \in {"ok", "fail"} => (CbMatch(p.cblog, Ev.cb) /\ SeqSet(p.freed) = SeqSet(Ev.freed)))
         /\ (p.status = "ok" => (Ev.ret = 0 /\ SecMatch(ObsSec(RootOf(p)), Ev.obs)
                                 /\ (p.depr \/ Ev.ndiag = 0)))
         (* a deprecation notice may precede the error: then the first diagnostic is not the error's *)
